@@ -83,7 +83,7 @@ def check_pool(pid, tier, seed, t0):
     known_seen = {}
     for x in mine + mc:
         if x["kf"] and x["kf"] in kf:
-            known_seen[x["kf"]] = known_seen.get(x["kf"], 0) + 1
+            known_seen[x["kf"]] = known_seen.get(x["kf"], 0) + x.get("count", 1)
     hits = {h: n for h, n in res["hits"].items() if h.startswith(pid + ".")}
     tl = res.get("tlc", [])
     states = res.get("judge_states", 0) + sum(r.get("states", 0) for r in tl) + res.get("followed", {}).get("states", 0)
